@@ -26,8 +26,13 @@ func TestDrive(t *testing.T) {
 	defer tw.Close()
 	det := lib.EnvStr("VERIF_DET", "") != ""
 	for _, s := range scheds {
+		lib.SeedCryptoRand(s.ID)
 		w := NewWorld(t, s.Kind, s.TP, s.Opt)
-		tw.Emit(TraceLine{Tr: s.ID, I: 0, Kind: s.Kind, TP: s.TP, A: json.RawMessage(`{"a":"Init","c":"A","dt":0}`), Res: "ok", St: w.State()})
+		init := TraceLine{Tr: s.ID, I: 0, Kind: s.Kind, TP: s.TP, A: json.RawMessage(`{"a":"Init","c":"A","dt":0}`), Res: "ok", St: w.State()}
+		if det {
+			init.Det = w.Det()
+		}
+		tw.Emit(init)
 		for i, raw := range s.Acts {
 			var a Action
 			if err := json.Unmarshal(raw, &a); err != nil {
